@@ -42,9 +42,22 @@ CLAIMS = {
   "note": "Widths <= 2 quick / 3 thorough; the fabric-side placement of the inversion in netlists for real ports is left to C04's netlist evaluator; kernel composition model trusted.",
   "technique": "contract-based deductive verification: finite exhaustive port-algebra contracts + buffer process contracts, z3",
  },
+ "C08": {
+  "category": "proof",
+  "text": "Function contracts on the real simulator state classes, executed on proxy values over all paths and discharged by z3 for all values: _PySignalState.update/commit (masked merge into next, pending iff changed, curr'=next, wakers iff changed and retained correctly), commutation of masked updates with disjoint masks, _PyMemoryState.read/write/commit (queue merge, out-of-range no-op, signed renormalisation, commutation for different rows / disjoint masks, commit returns changed), _PyEngineState.commit (converged iff nothing changed), edge_waker, _PyTimeline.advance (now' = min deadline, exactly the nearest wakers fire and are removed, the rest untouched), PyClockProcess.run with a ghost toggle schedule (first toggle at phase, then every period//2, exact integers). Syntactic frame rule on captured run() bodies and the ordered-source rule for testbench order. The property is claimed at the level of these frame/commutation/time lemmas; the coroutine-scheduler clauses are listed as uncovered.",
+  "design_ref": "DESIGN.md 3A/3D, 4/C08",
+  "note": "Order-independence follows from pairwise commutation by a diamond argument stated in prose; NOT decided: set() returning only after settling, tick/sample ordering, process-replaces-circuit equivalence; Period exactness for integer arguments is a bounded stand-in; widths <= 4/8, depth <= 2/3, <= 3 timeline wakers.",
+  "technique": "contract-based deductive verification: function contracts on real simulator classes by symbolic execution + z3; syntactic frame rules",
+ },
+ "C11": {
+  "text": "Memory process contracts: for every enumerated port configuration of the real lib.memory.Memory (shapes incl. zero-width and signed, depths incl. 1 and non-powers of two, 0..2(3) write ports with granularities, asynchronous / synchronous / transparent read ports, one or two domains) the generated run() code is symbolically executed through the kernel composition and z3 proves, for ALL row contents, addresses, data and enables, that after an edge every row equals the old row with exactly the enabled granules replaced (out-of-range writes ignored, signed rows canonical), asynchronous ports output the addressed row, synchronous ports capture the pre-edge row patched by same-edge writes of their transparency set and hold when disabled, and edges of other domains change nothing. The storage class (_PyMemoryState read/write/commit) is verified against the contract the configurations use. Closed obligations on the emitted RTLIL: $meminit_v2 DATA equals the initial rows, WIDTH/WORDS, dense distinct PORTIDs, per-granule EN replication, TRANSPARENCY_MASK bits, CLK_ENABLE.",
+  "design_ref": "DESIGN.md 3B/3C, 4/C11",
+  "note": "Configurations enumerated; simultaneous writes of two ports to the same granule of the same row excluded; reads beyond depth unspecified; full simulator/RTLIL behavioural agreement beyond the parameter lemmas is not decided; kernel composition trusted.",
+  "technique": "contract-based deductive verification: memory process templates vs array-of-rows model, z3; closed RTLIL parameter obligations",
+ },
 }
 NOT_APPLICABLE = {
  "C14": "reflective generators, attribute proxies and a 120-line lock-step loop over heterogeneous objects (flatten, is_compliant, connect) are outside the subset a VC generator built here models soundly; the reachable flip algebra is too small to carry the property (DESIGN.md 4/C14)",
 }
-for _p in ["C03","C04","C06","C07","C08","C09","C11","C13","C15","C16","C19","C20"]:
+for _p in ["C03","C04","C06","C07","C09","C13","C15","C16","C19","C20"]:
     NOT_APPLICABLE.setdefault(_p, "check not built yet in this session (work in progress; see DESIGN.md section 4 for the plan)")
